@@ -21,6 +21,8 @@ TARGETS = ["IbicusModel.Props.C03"]
 GEN = ["Debiasers"]
 TARGETS += ["IbicusModel.Lemmas.GenDebWin"]  # tier A of the per-window transfer functions (CDFt, ECDFM, QDM, QM, SDM absolute): the audit imports it
 GEN += ["DebWin"]  # Gen.DebWin: dataflow programs extracted by translator/extract_debiasers.py
+TARGETS += ["IbicusModel.Props.Capstone"]  # capstone: C03 stated on the composition of the regenerated pieces (loop spec ∘ per-window program ∘ grid map); the audit imports it
+GEN += ["Loops", "GridLoops", "DebWin", "Debiasers", "IsimipStep6"]  # the groups the capstone composes (lean_phase regenerates every transitively imported group anyway)
 # the configurations of harness/debiasers_corr.CONFIGS whose window functions the C03 theorems are about
 CORR_CONFIGS = ["LS-additive", "LS-multiplicative", "DC-additive", "DC-multiplicative", "QM-parametric-additive",
                 "QM-parametric-multiplicative", "QM-parametric-no_detrending", "ECDFM",
